@@ -25,27 +25,28 @@ var KernelDir = func() string {
 	}
 	return "/repo/kernel"
 }()
+
 const KernelMod = "github.com/ProjectSerenity/firefly/kernel"
 
 // Harness describes one Verif_<id>_<name> function and its directives.
 type Harness struct {
-	Fn        *ssa.Function
-	Name      string
-	Property  string
-	Pkg       string
-	Tier      string // "" (both) | "thorough"
-	Backend   string
-	Split     int // frontier depth for partitioning
-	Budget    int64
-	Depth     int
-	Bounds    []string
-	Assumes   []string
-	Overrides [][2]string
+	Fn              *ssa.Function
+	Name            string
+	Property        string
+	Pkg             string
+	Tier            string // "" (both) | "thorough"
+	Backend         string
+	Split           int // frontier depth for partitioning
+	Budget          int64
+	Depth           int
+	Bounds          []string
+	Assumes         []string
+	Overrides       [][2]string
 	BudgetViolation bool
-	NoMerge   bool
-	SoftMS    int
-	ConcretizeN int
-	MaxDecisions int
+	NoMerge         bool
+	SoftMS          int
+	ConcretizeN     int
+	MaxDecisions    int
 }
 
 type Loaded struct {
